@@ -652,6 +652,7 @@ func (c *Check) loopVarAddresses(rule string) {
 	nLoops, nAddr := 0, 0
 	for _, f := range fs {
 		info := f.Pkg.TypesInfo
+		var encl []*ast.BlockStmt // bodies of the loops around the node being visited
 		var visit func(nd ast.Node, loopVars map[*types.Var]ast.Node)
 		visit = func(nd ast.Node, loopVars map[*types.Var]ast.Node) {
 			var stack []ast.Node
@@ -680,7 +681,9 @@ func (c *Check) loopVarAddresses(rule string) {
 							}
 						}
 					}
+					encl = append(encl, s.Body)
 					visit(s.Body, lv)
+					encl = encl[:len(encl)-1]
 					stack = stack[:len(stack)-1]
 					return false
 				case *ast.ForStmt:
@@ -698,7 +701,9 @@ func (c *Check) loopVarAddresses(rule string) {
 							}
 						}
 					}
+					encl = append(encl, s.Body)
 					visit(s.Body, lv)
+					encl = encl[:len(encl)-1]
 					stack = stack[:len(stack)-1]
 					return false
 				case *ast.UnaryExpr:
@@ -710,6 +715,20 @@ func (c *Check) loopVarAddresses(rule string) {
 						return true
 					}
 					v, ok := info.Uses[id].(*types.Var)
+					if ok && loopVars[v] == nil && len(encl) > 0 && !v.IsField() {
+						// a variable declared outside the loop whose address is appended in the loop: every element of the
+						// list is the same pointer, and ends up showing the last iteration's value
+						body := encl[len(encl)-1]
+						if (v.Pos() < body.Pos() || v.Pos() > body.End()) && len(stack) >= 2 {
+							if call, isCall := stack[len(stack)-2].(*ast.CallExpr); isCall {
+								if b, isB := typeutil.Callee(info, call).(*types.Builtin); isB && b.Name() == "append" {
+									nAddr++
+									c.fail(rule, unitConstruct(f, "outer-variable-address-appended:"+v.Name()), s.Pos(),
+										"the address of "+v.Name()+", declared outside the loop, is appended inside it: all appended pointers are one pointer")
+								}
+							}
+						}
+					}
 					if !ok || loopVars[v] == nil {
 						return true
 					}
@@ -1125,4 +1144,77 @@ func (c *Check) aliasesThrough(v, prev *Term) (string, bool) {
 		return "", false
 	}
 	return walk(v, "")
+}
+
+// fractionValidators: the slash fraction and the tax rate are kept inside their ranges by the validators the parameter store
+// registers for them (governance proposals and genesis go through them): when the registered validator accepts a value it
+// has established 0 ≤ v, and v ≤ 1 for the slash fraction (v < 1 for the tax). Decided on the validator's success facts,
+// in any of the equivalent spellings (¬LT / GTE / ¬IsNegative; ¬GT / LTE; ¬GTE / LT). A fraction above one makes the slash
+// exceed the deposit (the respond handler and the end blocker then fail or panic), a negative one builds a negative coin.
+func (c *Check) fractionValidators(rule string) {
+	ps := c.P.FuncNamed("types.Params.ParamSetPairs")
+	if ps == nil {
+		c.undecided(rule, "types.Params.ParamSetPairs", token.NoPos, "parameter registration not found")
+		return
+	}
+	reg := map[string]string{}
+	for _, pa := range c.P.PathsOf(ps) {
+		if len(pa.Ret) != 1 || pa.Ret[0].Op != "lit" {
+			continue
+		}
+		for _, el := range pa.Ret[0].A[1:] {
+			var fld, val string
+			el.Walk(func(t *Term) bool {
+				if strings.HasPrefix(t.Op, ".Params.") && len(t.A) == 1 {
+					fld = strings.TrimPrefix(t.Op, ".Params.")
+				}
+				if t.Is("func") && len(t.A) >= 1 {
+					val = t.A[0].At
+				}
+				return true
+			})
+			if fld != "" && val != "" {
+				reg[fld] = val
+			}
+		}
+	}
+	for _, w := range []struct {
+		fld    string
+		strict bool
+	}{{"SlashFraction", false}, {"ServiceFeeTax", true}} {
+		g := c.P.FuncNamed(reg[w.fld])
+		if g == nil || g.Body == nil {
+			c.undecided(rule, "validator:"+w.fld, token.NoPos, "the validator registered for "+w.fld+" is not a declared function of the module (a factory-built validator is not decided here)")
+			continue
+		}
+		sf := c.closeFacts(c.P.SummaryOf(g).SuccessFacts)
+		// the validated value: the asserted parameter
+		var v *Term
+		for _, fa := range sf {
+			fa.T.Walk(func(t *Term) bool {
+				if t.Op == "res" && len(t.A) == 2 && t.A[0].IsAt("0") && stripConv(t.A[1]).Op == "assert" {
+					v = t
+				}
+				return true
+			})
+		}
+		lower, upper := false, false
+		if v != nil {
+			zero, one := mk("sdk.ZeroDec"), mk("sdk.OneDec")
+			lower = sf.Holds(mk("sdk.Dec.LT", v, zero), false) || sf.Holds(mk("sdk.Dec.GTE", v, zero), true) || sf.Holds(mk("sdk.Dec.IsNegative", v), false)
+			if w.strict {
+				upper = sf.Holds(mk("sdk.Dec.GTE", v, one), false) || sf.Holds(mk("sdk.Dec.LT", v, one), true)
+			} else {
+				upper = sf.Holds(mk("sdk.Dec.GT", v, one), false) || sf.Holds(mk("sdk.Dec.LTE", v, one), true) ||
+					sf.Holds(mk("sdk.Dec.GTE", v, one), false) || sf.Holds(mk("sdk.Dec.LT", v, one), true)
+			}
+		}
+		c.Sites++
+		rng := "[0, 1]"
+		if w.strict {
+			rng = "[0, 1)"
+		}
+		c.req(lower && upper, rule, g.Name+"#range", g.Body.Pos(),
+			fmt.Sprintf("a value the registered validator of %s accepts lies in %s (established on acceptance: 0 ≤ v: %v, upper bound: %v)", w.fld, rng, lower, upper))
+	}
 }
